@@ -174,7 +174,10 @@ def item_eval(item):
         handler = run_world(None, market, d0)      # the full world keeps its own directory
         base = [sl.run_session(cfg, handler) for cfg in cfgs]
         mk.clear_caches()
-        pairs = [(cfgs[k], cfgs[k + 1]) for k in range(0, min(len(cfgs) - 1, 4), 2)]
+        # the first session of a pair starts two days later than the second: the second one asks for instants the
+        # shared handler has not been asked before, earlier than the last ones it was asked
+        later = rm.utc(DAYS[2], 14, 30).isoformat()
+        pairs = [(dict(cfgs[k], start=later, burn_in=None), cfgs[k + 1]) for k in range(0, min(len(cfgs) - 1, 4), 2)]
         pair_cuts = set(cuts[2::4])
         for cut_s in cuts:
             cut = datetime.date.fromisoformat(cut_s)
